@@ -433,3 +433,6 @@ func (c *Client) Pending() int { return len(c.rbuf) }
 
 // ServerUnread is the number of bytes the client sent that the server has not read.
 func (c *Client) ServerUnread() int { return len(c.peer.rbuf) }
+
+// DefaultAddr is the address the harness servers listen on (a free real port in the real-socket flavour).
+func DefaultAddr() string { return "127.0.0.1:3890" }
